@@ -14,22 +14,22 @@ import (
 )
 
 type Obligation struct {
-	Name   string // <func>#<kind>.<ordinal>[@site]
-	Func   string
-	Kind   string
-	Goal   string
-	Guard  string
-	Facts  []string // snapshot of facts at this point
-	Decls  []string // snapshot length marker handled via fc
-	NDecl  int
-	NFact  int
-	Pos    string
-	Text   string // human-readable
-	Cover  bool   // must be SAT
-	Inputs []InputSym
-	Outs   []InputSym
+	Name       string // <func>#<kind>.<ordinal>[@site]
+	Func       string
+	Kind       string
+	Goal       string
+	Guard      string
+	Facts      []string // snapshot of facts at this point
+	Decls      []string // snapshot length marker handled via fc
+	NDecl      int
+	NFact      int
+	Pos        string
+	Text       string // human-readable
+	Cover      bool   // must be SAT
+	Inputs     []InputSym
+	Outs       []InputSym
 	GroundTest string // Go statements that print VRF-RESULT VIOLATED when the real package shows the violation
-	fc     *FuncCtx
+	fc         *FuncCtx
 	// results
 	Status  string // unsat sat unknown timeout error
 	Solver  string
@@ -45,17 +45,18 @@ type InputSym struct {
 }
 
 type State struct {
-	guard string
-	vars  map[types.Object]Term
-	alias map[types.Object]ast.Expr // local pointer alias -> lvalue expression denoting the pointee's owner pointer
-	ghost map[string]Term           // contract-level ghost variables
-	dead  bool
-	held  map[string]string // lock state: path -> "R"/"W" terms are static strings here
-	exprAlias map[types.Object]ast.Expr // unrolled range variable -> element expression
+	guard      string
+	vars       map[types.Object]Term
+	alias      map[types.Object]ast.Expr // local pointer alias -> lvalue expression denoting the pointee's owner pointer
+	ghost      map[string]Term           // contract-level ghost variables
+	dead       bool
+	held       map[string]string         // lock state: path -> "R"/"W" terms are static strings here
+	exprAlias  map[types.Object]ast.Expr // unrolled range variable -> element expression
+	pendingKey string                    // JSON: the literal key whose value is written next
 }
 
 func (s *State) clone() *State {
-	n := &State{guard: s.guard, vars: make(map[types.Object]Term, len(s.vars)), alias: make(map[types.Object]ast.Expr, len(s.alias)), ghost: make(map[string]Term, len(s.ghost)), dead: s.dead, held: map[string]string{}, exprAlias: map[types.Object]ast.Expr{}}
+	n := &State{pendingKey: s.pendingKey, guard: s.guard, vars: make(map[types.Object]Term, len(s.vars)), alias: make(map[types.Object]ast.Expr, len(s.alias)), ghost: make(map[string]Term, len(s.ghost)), dead: s.dead, held: map[string]string{}, exprAlias: map[types.Object]ast.Expr{}}
 	for k, v := range s.exprAlias {
 		n.exprAlias[k] = v
 	}
@@ -75,41 +76,42 @@ func (s *State) clone() *State {
 }
 
 type FuncCtx struct {
-	w        *World
-	pkg      *packages.Package
-	info     *types.Info
-	key      string
-	decl     *ast.FuncDecl
-	obj      *types.Func
-	contract *Contract
-	decls    []string // declare-const lines
-	facts    []string
-	obls     []*Obligation
-	counter  map[string]int
-	nfresh   int
-	oldState *State // entry state
-	returns  []*State
-	retVals  [][]Term
-	resultVars []*types.Var
-	loopOrd  int
-	inputs   []InputSym
-	breakTargets []*jumpTarget
+	w             *World
+	pkg           *packages.Package
+	info          *types.Info
+	key           string
+	decl          *ast.FuncDecl
+	obj           *types.Func
+	contract      *Contract
+	decls         []string // declare-const lines
+	facts         []string
+	obls          []*Obligation
+	counter       map[string]int
+	nfresh        int
+	oldState      *State // entry state
+	returns       []*State
+	retVals       [][]Term
+	resultVars    []*types.Var
+	loopOrd       int
+	inputs        []InputSym
+	breakTargets  []*jumpTarget
 	translateFail string
-	namedResults bool
-	deferred []ast.Stmt
-	selfCheck bool
-	quiet     bool
-	allVars   map[*types.Var]bool
-	oldEnv    *CEnv
-	paramVars []*types.Var
-	paramNames []string
-	rnames    []string
-	retOrd    int
-	curOuts   []InputSym
+	namedResults  bool
+	deferred      []ast.Stmt
+	selfCheck     bool
+	quiet         bool
+	allVars       map[*types.Var]bool
+	oldEnv        *CEnv
+	paramVars     []*types.Var
+	paramNames    []string
+	rnames        []string
+	retOrd        int
+	curOuts       []InputSym
 	usedContracts map[string]bool
-	byteSlices []byteLeaf
-	groundTest string
-	havocSources []Term
+	byteSlices    []byteLeaf
+	groundTest    string
+	havocSources  []Term
+	concats       [][3]string // string concatenations (result, left, right) for the JSON-safety facts
 }
 
 type byteLeaf struct {
@@ -235,7 +237,9 @@ func (fc *FuncCtx) fail(n ast.Node, f string, a ...interface{}) {
 // query renders the SMT-LIB text of an obligation.
 func (o *Obligation) Query(models bool) string { return o.QueryWith(models, nil) }
 
-func (o *Obligation) QueryWith(models bool, extra []string) string { return o.queryOpts(models, extra, false) }
+func (o *Obligation) QueryWith(models bool, extra []string) string {
+	return o.queryOpts(models, extra, false)
+}
 
 func (o *Obligation) queryOpts(models bool, extra []string, dropQuant bool) string {
 	fc := o.fc
@@ -244,9 +248,22 @@ func (o *Obligation) queryOpts(models bool, extra []string, dropQuant bool) stri
 		b.WriteString("(set-option :produce-models true)\n")
 	}
 	ax := fc.w.axiomTexts()
+	fc.w.Reg.SortOf(fc.w.jsonType())
+	fc.w.Reg.SortOf(types.NewSlice(types.Typ[types.Uint8]))
 	b.WriteString("(set-logic ALL)\n")
 	b.WriteString(fc.w.Reg.Prelude())
+	jsonOn := true
+	if jsonOn {
+		fc.w.Reg.SortOf(types.NewSlice(types.Typ[types.Uint8]))
+		b.WriteString(jsonPrelude())
+		b.WriteString("(declare-fun js_bytesval (Sl_Int) Str)\n")
+	}
 	b.WriteString(fc.w.strPrelude())
+	if jsonOn {
+		for _, v := range fc.w.Reg.strOrder {
+			b.WriteString(fmt.Sprintf("(assert (= (js_strsafe %s) %v))\n", fc.w.Reg.strConsts[v], jsonStrSafe(v)))
+		}
+	}
 	for _, a := range ax {
 		b.WriteString("(assert " + a + ")\n")
 	}
@@ -302,6 +319,9 @@ func (fc *FuncCtx) merge(states []*State) *State {
 	for _, s := range live[1:] {
 		n := &State{vars: map[types.Object]Term{}, alias: res.alias, ghost: map[string]Term{}, held: res.held, exprAlias: res.exprAlias}
 		n.guard = fc.compactBool(or(res.guard, s.guard))
+		if res.pendingKey == s.pendingKey {
+			n.pendingKey = s.pendingKey
+		}
 		keys := map[types.Object]bool{}
 		for k := range res.vars {
 			keys[k] = true
